@@ -350,11 +350,11 @@ class SymmetryTranslator:
         for subset in largest_subset(symbols):
             if len(subset) <= 1:
                 continue
-            preds: set[Predicate] = set()
+            preds: set[tuple[Sign, Predicate]] = set()
             for lit in subset:
                 symbol = lit.atom.symbol
-                preds.add(Predicate(symbol.name, len(symbol.arguments)))
-            if len(preds) == 1:
+                preds.add((lit.sign, Predicate(symbol.name, len(symbol.arguments))))
+            if len(preds) == 1:  # same predicate and same sign
                 yield tuple(sorted(subset))
 
     def _process_aggregates(self, stm: AST) -> list[AST]:
